@@ -40,7 +40,7 @@ func guarded3(f func() string) (out string) {
 }
 
 var selftest3 = []string{"Acc.Push", "Acc.Total", "NewAcc", "Classify", "Sum3", "MakeAcc", "MakeAcc2", "Deref", "Acc.Walk", "RunWalk",
-	"Loops3", "Sw3", "Upper", "Fill", "UseFill", "SortSum", "Circle.Area", "Rect.Area", "Pick", "AreaOf", "Cfg.Span", "Span2"}
+	"Loops3", "Sw3", "Twice", "Upper", "Fill", "UseFill", "SortSum", "Circle.Area", "Rect.Area", "Pick", "AreaOf", "Cfg.Span", "Span2"}
 
 func specs3() []k3spec {
 	var specs []k3spec
@@ -190,6 +190,11 @@ func TestDifferential4(t *testing.T) {
 			r, w := selftest.Sw3(a, v)
 			return zl(append([]int64{int64(r)}, bz(w)...)...)
 		}))
+		v2 := make([]byte, rng.Intn(4))
+		for j := range v2 {
+			v2[j] = byte(10 + rng.Intn(5))
+		}
+		add(fmt.Sprintf("lift (List.map Z.of_N) (Ok (Kernels3.Twice %s %s))", bl(v), bl(v2)), guarded3(func() string { return zl(bz(selftest.Twice(v, v2))...) }))
 		s := make([]byte, rng.Intn(8))
 		for j := range s {
 			s[j] = byte(90 + rng.Intn(40))
@@ -290,7 +295,7 @@ Definition isort (A : Type) (less : A -> A -> bool) (l : list A) : list A := Lis
 // every snippet must be rejected by the third mode, and the message must name the construct
 func TestRejected3(t *testing.T) {
 	cases := []struct{ body, want string }{
-		{"type T struct{ n int }\nfunc F(p *T) int { q := p; q.n = 1; return p.n }", "second name"},
+		{"type T struct{ n int }\nfunc F(p *T) int { q := p; q.n = 1; return p.n }", "may also be reachable"},
 		{"func F(v []byte) int { x := 0; L: for _, d := range v { if d == 3 { break L }; x++ }; return x }", ""},
 		{"func F(a uint32) uint32 { goto L; L: return a }", "label"},
 		{"func F(a uint32) uint32 { x := a; defer func() {}(); return x }", "defer"},
@@ -311,6 +316,7 @@ func TestRejected3(t *testing.T) {
 		{"func F(a interface{}) int { switch a.(type) { case int: return 1 }; return 0 }", "unsupported"},
 		{"func F(a uint32) uint32 { go G(a); return a }\nfunc G(a uint32) {}", "unsupported statement"},
 		{"func F(a uint32) uint32 { x := &a; *x = 3; return a }", "address of"},
+		{"type T struct{ n int }\ntype H struct{ ts []*T }\nfunc (h *H) Get(i int) *T { return h.ts[i] }\nfunc (t *T) Set(v int) { t.n = v }\nfunc F(h *H) int { t := h.Get(0); t.Set(3); return h.ts[0].n }", "may also be reachable"},
 		{"type T struct{ n int }\nfunc F(t T) int { p := &t; t.n = 2; return p.n }", "address of"},
 		{"import \"sort\"\nfunc F(v []int) { sort.Slice(v, func(i, j int) bool { return v[i]+i < v[j] }) }", "comparison of sort.Slice"},
 	}
@@ -324,7 +330,11 @@ func TestRejected3(t *testing.T) {
 		if err := os.WriteFile(filepath.Join(dir, "x", "x.go"), []byte(src), 0o644); err != nil {
 			t.Fatal(err)
 		}
-		_, errs := buildKernels3(dir, []k3spec{{pkg: "x", fn: "F", name: "F"}})
+		specs := []k3spec{{pkg: "x", fn: "F", name: "F"}}
+		if strings.Contains(cse.body, "func (h *H) Get") {
+			specs = []k3spec{{pkg: "x", recv: "H", fn: "Get", name: "H_Get"}, {pkg: "x", recv: "T", fn: "Set", name: "T_Set"}, {pkg: "x", fn: "F", name: "F"}}
+		}
+		_, errs := buildKernels3(dir, specs)
 		if cse.want == "" {
 			if len(errs) != 0 {
 				t.Errorf("case %d rejected (%v): %s", i, errs, cse.body)
